@@ -166,6 +166,9 @@ def St.appended (st : St) : Int := (st.log.length : Int) - 1
 inductive Ev
   | append (m t : Nat)   -- partition.WriteLog / queue.Put
   | foreignWrite (m t : Nat)  -- the local replicator of ANOTHER leader's partition wrote a row into the shared family
+  | foreignNames (m t : Nat)  -- ... of a partition of ANOTHER FAMILY HOUR of the same shard: only the names (metadata + shard index)
+  | foreignMetric (m : Nat)   -- ... of a partition of ANOTHER SHARD: the database-level metric dictionary (GenMetricID)
+  | foreignTagv (m t : Nat)   -- ... of another shard, series new THERE: the database-level tag value dictionary (GenTagValueID)
   | appendBad            -- a log entry whose payload is not a snappy block (Replica: Uncompress fails)
   | applyBegin           -- partition.replica: Consume, GetMessage; Replica: ValidateSequence
   | applyTake            -- WriteRows: GetOrCreateMemoryDatabase (family mutex)
@@ -359,6 +362,9 @@ def step (cfg : Cfg) (st : St) (e : Ev) : St :=
   | .rewind => if st.phase = .opened then doRewind st else st
   | .append m t => whenRunning st (if st.walGone then st else doAppend st m t)
   | .foreignWrite m t => whenRunning st (addNames { st with foreignMem := st.foreignMem + 1 } m t)
+  | .foreignNames m t => whenRunning st (addNames st m t)
+  | .foreignMetric m => whenRunning st { st with metric := st.metric.create m }
+  | .foreignTagv m t => whenRunning st { st with tagv := st.tagv.create (m, t) }
   | .appendBad => whenRunning st (if st.walGone then st else doAppendBad st)
   | .applyBegin => whenRunning st (if st.walGone then st else doApplyBegin cfg st)
   | .applyTake => whenRunning st (doApplyTake cfg st)
